@@ -9,3 +9,25 @@ Theorem C19_repeat_leaf : forall s segs l t0 t,
   fst (m_set (fst (m_set s segs (VAt t))) segs (VAt t)) = fst (m_set s segs (VAt t)).
 Proof. exact EditFrame.C19_repeat_leaf. Qed.
 Print Assumptions C19_repeat_leaf.
+
+(* law 2: `set` of a key that does not exist at the root followed by `rm` of that key: both succeed and the printed
+   document is exactly the one before — in every state reachable from a parsed document by any script of edits *)
+From E Require Import EditLaws EditAppend EditClosed EditClosedOps EditUndo.
+Theorem C19_set_rm_fresh_root : forall d s0 ops k t, parse_doc d = Ok s0 -> Forall atomic_op ops ->
+  let s := erun s0 ops in
+  find_by_name s (rvals s) k = None ->
+  snd (m_set s [k] (VAt t)) = Ok tt /\ snd (m_rm (fst (m_set s [k] (VAt t))) [k]) = Ok tt /\
+  view (fst (m_rm (fst (m_set s [k] (VAt t))) [k])) = view s.
+Proof.
+  intros d s0 ops k t Hp Ha s Hf. apply set_then_rm_fresh_root; [|exact Hf].
+  apply closed_erun; [exact Ha|eapply ids_closed_parse_doc; exact Hp].
+Qed.
+Print Assumptions C19_set_rm_fresh_root.
+
+(* law 4: two sets on different existing leaves give the same STATE (hence the same text) in either order *)
+Theorem C19_commute_leaves : forall s p q lp lq tp tq v w,
+  find_leaf s SRoot p = Some lp -> find_leaf s SRoot q = Some lq -> lp <> lq ->
+  val_of s lp = VAt tp -> val_of s lq = VAt tq -> hget (hp s) lp <> None -> hget (hp s) lq <> None ->
+  fst (m_set (fst (m_set s p (VAt v))) q (VAt w)) = fst (m_set (fst (m_set s q (VAt w))) p (VAt v)).
+Proof. exact set_leaves_commute. Qed.
+Print Assumptions C19_commute_leaves.
